@@ -12,6 +12,7 @@ ASSUMPTIONS = ['coordinates are multiples of 0.5, dp in {0.5, 1, 2}: float arith
 
 class ScoreStream(AlignStream):
     name = 'align_scores'
+    prelude = pl.ALIGN_CHECK
     weights = dict(realistic=5, blocks=3, dense=3, boundary=2, folding=1, fragment=2)
 
     def gen(self, rng, tier):
